@@ -339,3 +339,24 @@ crate::test::all_digit_tests! {
 }
 
 crate::macro_impl!(checked);
+
+// Verification hooks: thin public wrappers around internal functions, compiled only with `--cfg bnum_verif`.
+#[cfg(bnum_verif)]
+macro_rules! verif_hooks {
+    ($BUint: ident, $BInt: ident, $Digit: ident) => {
+        impl<const N: usize> $BUint<N> {
+            pub fn verif_div_rem_digit(self, rhs: $Digit) -> (Self, $Digit) {
+                self.div_rem_digit(rhs)
+            }
+            pub fn verif_div_rem_unchecked(self, rhs: Self) -> (Self, Self) {
+                self.div_rem_unchecked(rhs)
+            }
+            pub fn verif_iilog(m: ExpType, b: Self, k: Self) -> (ExpType, Self) {
+                Self::iilog(m, b, k)
+            }
+        }
+    };
+}
+
+#[cfg(bnum_verif)]
+crate::macro_impl!(verif_hooks);
